@@ -18,7 +18,9 @@ EXPLANATION = (
     "(R23.3) tear down before releasing the election token: detaching the "
     "dispatcher and unpinning the table must not come after the successful "
     "rmdir of the lock directory; (R23.4) failure cleanup in both start-up "
-    "branches. The creator's unlocked initial write and the detach after "
+    "branches; (R23.7) the netlink helper completes a refused attach "
+    "request with an exception (kernel answers by abstract execution). "
+    "The creator's unlocked initial write and the detach after "
     "rmdir are recorded findings. Declined: interleavings and crash points "
     "as such.")
 ASSUMPTIONS = [
@@ -41,6 +43,67 @@ def run(chk, repo):
     teardown(chk, repo)
     errno_classes(chk, repo)
     fs_effects(chk, repo)
+    netlink_answers(chk, repo)
+
+
+def netlink_answers(chk, repo):
+    """R23.7: the installer learns from the netlink answer whether the
+    dispatcher got attached (ParallelEtherCat.run cleans up and gives the
+    election back on an exception, and goes on as a participant
+    otherwise).  XDRFD.datagram_received, by abstract execution on the
+    messages a kernel sends: an NLMSG_ERROR with a non-zero code (the
+    kernel reports -errno) completes the request with an exception, the
+    acknowledgement (code 0) and NLMSG_DONE with a result."""
+    chk.doc("R23.7", "a refused attach request is seen as a failure")
+    sym = "ebpfcat.xdp.XDRFD.datagram_received"
+    ci = repo.cls("ebpfcat.xdp.XDRFD")
+    f = ci.methods.get("datagram_received")
+    need(f is not None, f"{sym}: not found")
+    chk.analysed(sym)
+
+    def msg(type_, flags, payload=b""):
+        return struct.pack("IHHII", 16 + len(payload), type_, flags, 1,
+                           77) + payload
+
+    def err(code):
+        return msg(2, 0, struct.pack("iIHHII", code, 52, 19, 5, 1, 0))
+    cases = [("acknowledgement (NLMSG_ERROR, code 0)", err(0), "result")]
+    for code, nm in ((-16, "EBUSY"), (-95, "EOPNOTSUPP"), (-1, "EPERM"),
+                     (-22, "EINVAL"), (-19, "ENODEV")):
+        cases.append((f"NLMSG_ERROR with code {code} (-{nm})", err(code),
+                      "exception"))
+    cases.append(("NLMSG_DONE", msg(3, 2), "result"))
+    cases.append(("a multipart message followed by an error -16",
+                  msg(16, 2, b"\0" * 16) + err(-16), "exception"))
+    cases.append(("a multipart message followed by NLMSG_DONE",
+                  msg(16, 2, b"\0" * 16) + msg(3, 2), "result"))
+    bad = []
+    for name, data, want in cases:
+        got = []
+        fut = Obj(None, {
+            "set_result": ("hook", lambda v, _g=got: _g.append("result")),
+            "set_exception": ("hook", lambda e, _g=got: _g.append(
+                "exception")),
+            "done": ("hook", lambda _g=got: bool(_g))})
+        me = Obj(ci, {"future": fut})
+        os_ = Obj(None, {"strerror": ("hook", lambda n: f"error {n}")})
+        try:
+            Evaluator(repo, ci.module, ci, funcs={"os": os_}).call_function(
+                f, [me, data, (0, 0)], cls=ci)
+        except Raised:
+            pass
+        except Unknown as e:
+            raise AnalysisError(f"{sym}: cannot be evaluated: {e}")
+        if got != [want]:
+            bad.append(f"{name}: the request is completed with "
+                       f"{got or 'nothing'}, expected one {want}")
+    chk.ob("R23.7", sym, f"a netlink answer completes the pending request "
+           f"once: with an exception for an error code, with a result for "
+           f"the acknowledgement and NLMSG_DONE ({len(cases)} answers by "
+           f"abstract execution)", not bad, f, "; ".join(bad[:2]) + (
+               ": the installer takes a refused attach for a success, pins "
+               "the table and lets every participant run without a "
+               "dispatcher" if bad else "") or "as the kernel reports them")
 
 
 FS_ALLOWED = {
@@ -505,6 +568,21 @@ def bitmap(chk, repo):
             log.append(("pwrite", bytes(data), off))
             file_[off:off + len(data)] = data
             return len(data)
+        def open_(path, mode="r", *a, **k):
+            # a second descriptor of a file: POSIX record locks belong to
+            # the process and the file, closing any descriptor of the
+            # file drops them
+            log.append(("fopen", path, mode))
+
+            def close_():
+                log.append(("fclose", path))
+            fo = Obj(None, {
+                "read": ("hook", lambda *a_: bytes(file_[:a_[0]] if a_
+                                                   else file_)),
+                "close": ("hook", close_)})
+            fo.fields["__enter__"] = ("hook", lambda _f=fo: _f)
+            fo.fields["__exit__"] = ("hook", lambda *a_: close_())
+            return fo
         seq = list(draws)
         os_ = Obj(None, {
             "open": ("hook", os_open), "pread": ("hook", pread),
@@ -519,7 +597,7 @@ def bitmap(chk, repo):
         fcntl_ = Obj(None, {
             "lockf": ("hook", lambda fd, fl, *a: log.append(("lockf", fl))),
             "LOCK_EX": 2, "LOCK_UN": 8, "LOCK_NB": 4})
-        funcs = {"os": os_, "fcntl": fcntl_,
+        funcs = {"os": os_, "fcntl": fcntl_, "open": ("hook", open_),
                  "randrange": ("hook", lambda *a: seq.pop(0))}
         return log, file_, funcs
     bad = []
@@ -544,6 +622,17 @@ def bitmap(chk, repo):
             bad.append(f"windows {taken} taken, draws {draws}: map marks "
                        f"{setbits}, base_addr "
                        f"{me.fields.get('base_addr')!r}")
+        held_ = False
+        for e in log:
+            if e[0] == "lockf":
+                held_ = e[1] == 2
+            if e[0] == "fclose" and held_ and e[1] == "/run/x/y.fmmu":
+                bad.append(f"windows {taken}: a second descriptor of the "
+                           f"map file is closed while the lock is held - "
+                           f"that drops the process's record lock on the "
+                           f"file, the rest of the read-modify-write runs "
+                           f"unprotected")
+                break
         io = [e for e in log if e[0] in ("pread", "pwrite", "trunc", "lockf")]
         ex = [i for i, e in enumerate(io) if e == ("lockf", 2)]
         un = [i for i, e in enumerate(io) if e == ("lockf", 8)]
